@@ -55,7 +55,7 @@ func histDepth() int {
 // ok=false: the sequence names a socket that does not exist (not a history).
 func runHistory(c *histCase, lc localClasses) (sig, detail string, ok bool) {
 	proto := c.Network[:3]
-	bindIP := net.ParseIP(c.Address)
+	bindIP := simnet.Resolve(c.Address)
 	nw := simnet.New()
 	nw.ModelReusePort = true
 	nw.LogOff = true
@@ -213,9 +213,9 @@ func TestC20Histories(t *testing.T) {
 			if gen == "range" && network[:3] == "tcp" {
 				continue // random TCP ports of the range generator: fill/drain part (and its recorded finding)
 			}
-			addrs := []string{"0.0.0.0", "10.9.0.1"}
+			addrs := []string{"0.0.0.0", "10.9.0.1", "relay.test"} // the last one: a host name (legal wherever the generator takes an address)
 			if network[3] == '6' {
-				addrs = []string{"::", "fd00:9::1"}
+				addrs = []string{"::", "fd00:9::1", "relay6.test"}
 			}
 			for _, addr := range addrs {
 				idx++
